@@ -10,6 +10,7 @@ import (
 	"strconv"
 	"strings"
 	"sync"
+	"sync/atomic"
 	"time"
 
 	"pgregory.net/rapid"
@@ -1080,6 +1081,44 @@ func init() {
 				m.violate(violation{"C18", "float-edges", fmt.Sprintf("Float64Range(%v,%v): min seen=%v max seen=%v in 5000 draws", lo, hi, sawLo, sawHi), map[string]string{}})
 			}
 		}
+		// no hole next to a bound with a fraction: in the binade of the bound nearest to zero, values with a larger
+		// integer part take fractions below the bound's fraction too (Float64Range(10.5, 42) produces 11.25)
+		for i := 0; i < 8*scale; i++ {
+			e := 1 + r.intn(8)
+			k := float64(uint64(1)<<uint(e) + uint64(r.intn(1<<uint(e)-1)))
+			lo, hi := k+0.5, (k+0.5)*4
+			neg := i%2 == 1
+			name := fmt.Sprintf("Float64Range(%v, %v)", lo, hi)
+			var g *rapid.Generator[float64]
+			if neg {
+				g = rapid.Float64Range(-hi, -lo)
+				name = fmt.Sprintf("Float64Range(%v, %v)", -hi, -lo)
+			} else {
+				g = rapid.Float64Range(lo, hi)
+			}
+			if i%4 >= 2 {
+				name = strings.Replace(name, "Float64", "Float32", 1)
+				g32 := rapid.Float32Range(float32(lo), float32(hi))
+				if neg {
+					g32 = rapid.Float32Range(float32(-hi), float32(-lo))
+				}
+				g = rapid.Map(g32, func(f float32) float64 { return float64(f) })
+			}
+			s := rapid.VerifRandStream(r.u64(), false)
+			t := rapid.VerifNewT(newRecTB("fh"), s, false)
+			top := float64(uint64(1) << uint(e+1))
+			saw := false
+			const n = 20000
+			for j := 0; j < n && !saw; j++ {
+				v := math.Abs(rapid.VerifValue(g, t))
+				saw = math.Floor(v) > k && v < top && v-math.Floor(v) < 0.5
+			}
+			m.tag("float-hole")
+			m.eval("float-hole "+name, true)
+			if !saw {
+				m.violate(violation{"C18", "float-hole", fmt.Sprintf("%s: in %d draws no value between %v and %v with a fraction below .5", name, n, k+1, top), map[string]string{"gen": name}})
+			}
+		}
 		// the public full-range generator of every integer kind hits both ends of its Go type
 		kindEdges(r, m)
 		// fresh seeds: two Check calls without -rapid.seed explore different test cases
@@ -1357,6 +1396,42 @@ func raceScenario(which string) {
 			if results[i] != results[0] {
 				fmt.Println("DIFF: concurrent checks with the same seed drew different values")
 				os.Exit(67)
+			}
+		}
+		// an unresolved Deferred met by several checks at once, while its function is still running for the first of
+		// them: every check draws what it draws alone (the generator the function returned to the first caller)
+		for round := 0; round < 3; round++ {
+			var calls int32
+			slow := rapid.Deferred(func() *rapid.Generator[int] {
+				n := atomic.AddInt32(&calls, 1)
+				time.Sleep(30 * time.Millisecond)
+				return rapid.Just(int(n))
+			})
+			start := make(chan struct{})
+			var wg2 sync.WaitGroup
+			drawn := make([]string, 6)
+			for i := 0; i < 6; i++ {
+				wg2.Add(1)
+				go func(i int) {
+					defer wg2.Done()
+					<-start
+					var b strings.Builder
+					tb := newRecTB(fmt.Sprintf("def%d", i))
+					runTB(func() {
+						rapid.VerifDoCheck(tb, farDeadline(), 3, 99, "", false, func(t *rapid.T) {
+							fmt.Fprintf(&b, "%d,", slow.Draw(t, "d"))
+						})
+					})
+					drawn[i] = b.String()
+				}(i)
+			}
+			close(start)
+			wg2.Wait()
+			for i := range drawn {
+				if drawn[i] != "1,1,1," {
+					fmt.Printf("DIFF: check %d sharing an unresolved Deferred with 5 others drew %s; alone it draws 1,1,1, (the function ran %d times)\n", i, drawn[i], atomic.LoadInt32(&calls))
+					os.Exit(67)
+				}
 			}
 		}
 	}
